@@ -18,10 +18,11 @@ Clauses (sentence of the statement that licenses them):
   quarter-duration-map           "the quarter-duration map returns the divisions in force at any time"
   quarter-independent-of-mode    the quarter map is dictated by quarter durations only
 """
+import zlib
 from fractions import Fraction
 from itertools import combinations, product
 
-from mc.core import CaseResult, Space, run_check, block_of, innermost_partitura_frame, exc_text, Hang
+from mc.core import CaseResult, Space, run_check, innermost_partitura_frame, exc_text, Hang
 from mc.c02_ref import RefMaps, ModeModel, qdur_at, default_musical
 
 PID = "C02"
@@ -76,10 +77,11 @@ def d_last(ts):
     return {"%d/%d" % (b, bt): b * 2}  # more musical beats than notated ones
 
 
-# the history evaluated on every structural case of the big sub-spaces: default musical beats, back,
-# user dict for one signature, user dict for all signatures, back (must restore defaults), default again
+# the history evaluated on every structural case of the big sub-spaces: default musical beats, user dict
+# for all signatures, back to notated beats, user dict for one signature (the others must be back at their
+# defaults).  Every other history (up to a depth) is enumerated in the beat-mode-histories sub-space.
 def universal_history(ts):
-    return [["M", {}], ["N"], ["M", d_one(ts)], ["S", d_all()], ["N"], ["M", {}]]
+    return [["M", {}], ["S", d_all()], ["N"], ["M", d_one(ts)]]
 
 
 # ---------------------------------------------------------------------------------------------
@@ -131,7 +133,7 @@ def apply_op(part, op):
 # oracle
 
 
-def positions_of(ref, unit):
+def positions_of(ref):
     """every integer position, every half position, and both sides of every change point"""
     t0, last = ref.t0, ref.last
     ps = set()
@@ -155,6 +157,14 @@ def close(a, e, scale=1.0):
     return abs(a - float(e)) <= TOL * scale * max(1.0, abs(float(e)))
 
 
+def vclose(got, expf):
+    """vectorised `close`: boolean array (nan/inf never close)"""
+    import numpy as np
+
+    with np.errstate(invalid="ignore"):
+        return np.isfinite(got) & (np.abs(got - expf) <= TOL * np.maximum(1.0, np.abs(expf)))
+
+
 def _fl(xs):
     return [float(x) for x in xs]
 
@@ -163,12 +173,22 @@ class MapCheck(object):
     """compares one forward/inverse pair with the reference under every accepted reading"""
 
     def __init__(self, res, ref, case, ctx):
+        import numpy as np
+
         self.res = res
         self.ref = ref
         self.case = case
         self.ctx = ctx
         self.calls = 0
         self.origin_seen = None
+        self.pos = positions_of(ref)
+        self.xs = np.array(_fl(self.pos), dtype=float)
+        self.idx = {p: i for i, p in enumerate(self.pos)}
+        self.interior = [i for i, p in enumerate(self.pos) if ref.t0 < p < ref.last]
+        ints = [i for i, p in enumerate(self.pos) if p.denominator == 1]
+        self.ints = ints
+        # scalar calls: first, second, a middle and the last integer position
+        self.scal = sorted({ints[0], ints[min(1, len(ints) - 1)], ints[len(ints) // 2], ints[-1]})
 
     def fail(self, clause, exp, obs, where, detail=""):
         self.res.fail(clause, expected=exp, observed=obs, where=where, detail=("%s %s" % (self.ctx, detail)).strip())
@@ -178,7 +198,7 @@ class MapCheck(object):
                       where=innermost_partitura_frame(ex), observed=exc_text(ex),
                       detail=("%s %s" % (self.ctx, detail)).strip())
 
-    def pair(self, part, unit, mus, scalars):
+    def pair(self, part, unit, mus, scalars=False, inverse=True):
         """unit 'q' or 'b'; mus = None (notated) or list of musical beats per signature"""
         import numpy as np
 
@@ -186,13 +206,11 @@ class MapCheck(object):
         name = "quarter" if unit == "q" else "beat"
         fwd_name = "Part.quarter_map" if unit == "q" else "Part.beat_map"
         inv_name = "Part.inv_quarter_map" if unit == "q" else "Part.inv_beat_map"
-        pos = positions_of(ref, unit)
-        xs = np.array(_fl(pos), dtype=float)
+        pos, xs = self.pos, self.xs
         try:
             fwd = part.quarter_map if unit == "q" else part.beat_map
-            inv = part.inv_quarter_map if unit == "q" else part.inv_beat_map
             got = np.asarray(fwd(xs), dtype=float)
-            self.calls += 3
+            self.calls += 2
         except Exception as ex:  # noqa
             self.exc(name + "-exact", ex, "array call")
             return
@@ -204,66 +222,72 @@ class MapCheck(object):
         first = None
         for pre, origin in ref.readings(unit, mus):
             exp = ref.values(pos, unit, mus, pre, origin)
+            expf = np.array(_fl(exp), dtype=float)
             if first is None:
-                first = (exp, origin)
-            if all(close(g, e) for g, e in zip(got, exp)):
-                chosen = (pre, origin, exp)
+                first = (exp, expf, origin)
+            if vclose(got, expf).all():
+                chosen = (pre, origin, exp, expf)
                 break
         if chosen is None:
-            exp, origin = first
-            bad = [i for i, (g, e) in enumerate(zip(got, exp)) if not close(g, e)]
-            i = bad[0]
+            exp, expf, origin = first
+            i = int(np.flatnonzero(~vclose(got, expf))[0])
             # classify: a constant offset means the origin is wrong, anything else the integration
-            offs = [float(g) - float(e) for g, e in zip(got, exp)]
-            const = all(abs(o - offs[0]) <= 1e-9 * max(1.0, abs(offs[0])) for o in offs) and offs[0] == offs[0]
+            offs = got - expf
+            const = bool(np.isfinite(offs).all() and (np.abs(offs - offs[0]) <= 1e-9 * max(1.0, abs(offs[0]))).all())
             clause = name + ("-origin" if const else "-exact")
-            self.fail(clause, {"t": _fl(pos)[i], "value": exp[i], "zero_at": origin, "all": _fl(exp)[:40]},
-                      {"value": float(got[i]), "all": [float(g) for g in got][:40]}, fwd_name,
+            self.fail(clause, {"t": float(pos[i]), "value": exp[i], "zero_at": origin, "all": expf.tolist()[:40]},
+                      {"value": float(got[i]), "all": got.tolist()[:40]}, fwd_name,
                       "first differing position %s of %d" % (pos[i], len(pos)))
             return
-        pre, origin, exp = chosen
+        pre, origin, exp, expf = chosen
         self.origin_seen = origin
         # non-decreasing (strictly increasing in fact, every division has positive length)
-        for i in range(len(got) - 1):
-            if not got[i + 1] >= got[i]:
-                self.fail(name + "-monotone", "non-decreasing", [float(got[i]), float(got[i + 1])], fwd_name,
-                          "between %s and %s" % (pos[i], pos[i + 1]))
-                break
-        # continuity across change points: the jump over 2*EPS is bounded by the steepest slope
+        d = np.diff(got)
+        if not (d >= 0).all():
+            i = int(np.flatnonzero(~(d >= 0))[0])
+            self.fail(name + "-monotone", "non-decreasing", [float(got[i]), float(got[i + 1])], fwd_name,
+                      "between %s and %s" % (pos[i], pos[i + 1]))
+        # continuity across change points: the jump over EPS is bounded by the steepest slope
         mr = float(ref.max_rate(unit, mus, pre))
-        idx = {p: i for i, p in enumerate(pos)}
+        idx = self.idx
         for c in ref.change_points(unit):
             for a, b in ((c - EPS, Fraction(c)), (Fraction(c), c + EPS)):
                 if a in idx and b in idx:
                     jump = abs(float(got[idx[b]]) - float(got[idx[a]]))
-                    if not jump <= float(EPS) * mr * 1.001 + 1e-9 * max(1.0, abs(float(exp[idx[b]]))):
+                    if not jump <= float(EPS) * mr * 1.001 + 1e-9 * max(1.0, abs(float(expf[idx[b]]))):
                         self.fail(name + "-continuous", "jump <= %g" % (float(EPS) * mr), jump, fwd_name,
                                   "at change point %d" % c)
+        if not inverse:
+            return
         # inverse: inv(fwd(t)) == t at every position, inv(exact value) == t at interior positions
+        interior = self.interior
         try:
+            inv = part.inv_quarter_map if unit == "q" else part.inv_beat_map
             back = np.asarray(inv(got), dtype=float)
-            interior = [i for i, p in enumerate(pos) if ref.t0 < p < ref.last]
-            back2 = np.asarray(inv(np.array([float(exp[i]) for i in interior], dtype=float)), dtype=float) \
-                if interior else np.array([])
-            self.calls += 2
+            back2 = np.asarray(inv(expf[interior]), dtype=float) if interior else np.array([])
+            self.calls += 3
         except Exception as ex:  # noqa
             self.exc(name + "-inverse", ex, "array call")
             return
-        for i, p in enumerate(pos):
-            if not close(back[i], p):
-                self.fail(name + "-inverse", {"t": float(p)}, {"inv(fwd(t))": repr(float(back[i])), "fwd(t)": float(got[i])},
-                          inv_name, "position %s" % p)
-                break
-        for j, i in enumerate(interior):
-            if not close(back2[j], pos[i]):
+        ok = vclose(back, xs) if back.shape == xs.shape else np.zeros(len(xs), dtype=bool)
+        if not ok.all():
+            i = int(np.flatnonzero(~ok)[0])
+            self.fail(name + "-inverse", {"t": float(pos[i])},
+                      {"inv(fwd(t))": repr(back[i]) if back.shape == xs.shape else repr(back), "fwd(t)": float(got[i])},
+                      inv_name, "position %s" % pos[i])
+        elif interior:
+            ok = vclose(back2, xs[interior]) if back2.shape == (len(interior),) else np.zeros(len(interior), dtype=bool)
+            if not ok.all():
+                j = int(np.flatnonzero(~ok)[0])
+                i = interior[j]
                 self.fail(name + "-inverse", {"t": float(pos[i])},
-                          {"inv(v)": repr(float(back2[j])), "v": float(exp[i])}, inv_name, "exact value of position %s" % pos[i])
-                break
+                          {"inv(v)": repr(back2[j]) if back2.ndim else repr(back2), "v": float(exp[i])}, inv_name,
+                          "exact value of position %s" % pos[i])
         # scalar / list / numpy-integer calls
         if scalars:
-            ints = [i for i, p in enumerate(pos) if p.denominator == 1]
+            ints = self.ints
             try:
-                for i in ints:
+                for i in self.scal:
                     t = int(pos[i])
                     v = fwd(t)
                     self.calls += 2
@@ -279,12 +303,12 @@ class MapCheck(object):
                 v2 = np.asarray(fwd(np.array(li, dtype=np.int64)), dtype=float)
                 w = np.asarray(inv([float(x) for x in v]), dtype=float)
                 self.calls += 3
-                e = [exp[i] for i in ints]
-                if v.shape != (len(li),) or not all(close(a, b) for a, b in zip(v, e)):
-                    self.fail(name + "-scalar", _fl(e), v.tolist(), fwd_name, "list argument")
-                elif v2.shape != (len(li),) or not all(close(a, b) for a, b in zip(v2, e)):
-                    self.fail(name + "-scalar", _fl(e), v2.tolist(), fwd_name, "integer array argument")
-                elif w.shape != (len(li),) or not all(close(a, b) for a, b in zip(w, li)):
+                e = expf[ints]
+                if v.shape != (len(li),) or not vclose(v, e).all():
+                    self.fail(name + "-scalar", e.tolist(), v.tolist(), fwd_name, "list argument")
+                elif v2.shape != (len(li),) or not vclose(v2, e).all():
+                    self.fail(name + "-scalar", e.tolist(), v2.tolist(), fwd_name, "integer array argument")
+                elif w.shape != (len(li),) or not vclose(w, np.array(li, dtype=float)).all():
                     self.fail(name + "-scalar", li, w.tolist(), inv_name, "list argument")
             except Exception as ex:  # noqa
                 self.exc(name + "-scalar", ex, "scalar/list call")
@@ -375,7 +399,8 @@ def eval_case(case):
                      observed={"musical": bool(part._use_musical_beat), "musical_beats": held},
                      where="Part.use_musical_beat/use_notated_beat/set_musical_beat_per_ts", detail=mc.ctx)
             break
-        mc.pair(part, "b", list(mode.mus) if mode.flag else None, scalars=False)
+        mc.pair(part, "b", list(mode.mus) if mode.flag else None, scalars=False,
+                inverse=mode.flag or bool(case.get("inv_all")))
         ob.append(mc.origin_seen)
     if qvals is not None and not res.violations:
         q2 = np.asarray(part.quarter_map(xs), dtype=float)
@@ -452,7 +477,7 @@ def gen_quarter(scope):
                 for b, bt in meters:
                     ts = [[t0, b, bt]]
                     for m in m_options(t0, last):
-                        yield dict(t0=t0, last=last, divs=divs, ts=ts, m=m, hist=universal_history(ts))
+                        yield dict(t0=t0, last=last, divs=divs, ts=ts, m=m, hist=universal_history(ts), hid="U")
     if scope != "core":
         # three changes
         L, t0 = 6, 0
@@ -460,7 +485,7 @@ def gen_quarter(scope):
             for b, bt in ((4, 4), (6, 8), (5, 8)):
                 ts = [[t0, b, bt]]
                 for m in (None, [0, 2], [0, 3], [0, 6]):
-                    yield dict(t0=t0, last=t0 + L, divs=tab, ts=ts, m=m, hist=universal_history(ts))
+                    yield dict(t0=t0, last=t0 + L, divs=tab, ts=ts, m=m, hist=universal_history(ts), hid="U")
 
 
 def gen_ts(scope):
@@ -479,7 +504,7 @@ def gen_ts(scope):
             for meters, kmax, kmin in plans:
                 for ts in ts_tables(t0, meters, range(t0 + 1, last + 1), kmax, kmin):
                     for m in m_options(t0, last):
-                        yield dict(t0=t0, last=last, divs=divs, ts=ts, m=m, hist=universal_history(ts))
+                        yield dict(t0=t0, last=last, divs=divs, ts=ts, m=m, hist=universal_history(ts), hid="U")
 
 
 def gen_mixed(scope):
@@ -503,7 +528,7 @@ def gen_mixed(scope):
                 divs = shift_divs(tab, t0, "ctor")
                 for ts in ts_tables(t0, meters, range(t0 + 1, last + 1), kts, kts):
                     for m in m_options(t0, last):
-                        yield dict(t0=t0, last=last, divs=divs, ts=ts, m=m, hist=universal_history(ts))
+                        yield dict(t0=t0, last=last, divs=divs, ts=ts, m=m, hist=universal_history(ts), hid="U")
         # two changes of each kind
         if seqs is not None:
             for qseq, mseq in seqs:
@@ -512,13 +537,13 @@ def gen_mixed(scope):
                     for tp in combinations(range(t0 + 1, last + 1), 2):
                         ts = [[p, m_[0], m_[1]] for p, m_ in zip((t0,) + tp, mseq)]
                         for m in m_options(t0, last):
-                            yield dict(t0=t0, last=last, divs=divs, ts=ts, m=m, hist=universal_history(ts))
+                            yield dict(t0=t0, last=last, divs=divs, ts=ts, m=m, hist=universal_history(ts), hid="U")
         else:
             for tab in q_tables([1, 2, 3], [1, 2, 3], range(1, L), 2, 2):
                 divs = shift_divs(tab, t0, "ctor")
                 for ts in ts_tables(t0, [(4, 4), (6, 8), (3, 2)], range(t0 + 1, last + 1), 2, 2):
                     for m in m_options(t0, last):
-                        yield dict(t0=t0, last=last, divs=divs, ts=ts, m=m, hist=universal_history(ts))
+                        yield dict(t0=t0, last=last, divs=divs, ts=ts, m=m, hist=universal_history(ts), hid="U")
 
 
 def _hist_ok(h, ts):
@@ -548,10 +573,11 @@ def gen_modes(scope):
     for t0, last, divs, ts, m in structs:
         ops = [["M", {}], ["M", d_one(ts)], ["M", d_all()], ["N"], ["S", d_one(ts)], ["S", d_last(ts)], ["S", {}]]
         for d in range(1, depth + 1):
-            for h in product(ops, repeat=d):
-                h = [list(o) for o in h]
+            for ix in product(range(len(ops)), repeat=d):
+                h = [list(ops[i]) for i in ix]
                 if _hist_ok(h, ts):
-                    yield dict(t0=t0, last=last, divs=divs, ts=ts, m=m, hist=h)
+                    yield dict(t0=t0, last=last, divs=divs, ts=ts, m=m, hist=h, inv_all=1,
+                               hid="".join(map(str, ix)))
 
 
 def gen_edge(scope):
@@ -563,13 +589,13 @@ def gen_edge(scope):
     for t0 in (0, 2, 5):
         for q in (1, 3):
             for ts in ([], [[t0, 4, 4]], [[t0, 6, 8]]):
-                yield dict(t0=t0, last=t0, divs=shift_divs([[0, q]], t0, "set"), ts=ts, m=None, hist=hist)
+                yield dict(t0=t0, last=t0, divs=shift_divs([[0, q]], t0, "set"), ts=ts, m=None, hist=hist, hid="MN")
     # two points, length 1
     for t0 in (0, 3):
         for q in (1, 2, 3):
             for ts in ([], [[t0, 3, 4]], [[t0, 6, 8]], [[t0 + 1, 6, 8]], [[t0, 2, 2], [t0 + 1, 6, 8]]):
                 for m in (None, [t0, t0 + 1]):
-                    yield dict(t0=t0, last=t0 + 1, divs=shift_divs([[0, q]], t0, "ctor"), ts=ts, m=m, hist=hist)
+                    yield dict(t0=t0, last=t0 + 1, divs=shift_divs([[0, q]], t0, "ctor"), ts=ts, m=m, hist=hist, hid="MN")
     L = 6
     for t0 in (0, 2):
         last = t0 + L
@@ -579,11 +605,11 @@ def gen_edge(scope):
                 # no signature at all; late first signature
                 for ts in ([], [[t0 + 2, 6, 8]], [[t0 + 3, 3, 2], [t0 + 5, 4, 4]], [[last, 6, 8]]):
                     for m in (None, [t0, t0 + 2], [t0, last]):
-                        yield dict(t0=t0, last=last, divs=divs, ts=ts, m=m, hist=universal_history(ts))
+                        yield dict(t0=t0, last=last, divs=divs, ts=ts, m=m, hist=universal_history(ts), hid="U")
                 # measure starting later than the first point
                 for ts in ([[t0, 4, 4]], [[t0, 6, 8], [t0 + 2, 4, 4]]):
                     for m in ([t0 + 1, t0 + 3], [t0 + 2, last]):
-                        yield dict(t0=t0, last=last, divs=divs, ts=ts, m=m, hist=universal_history(ts))
+                        yield dict(t0=t0, last=last, divs=divs, ts=ts, m=m, hist=universal_history(ts), hid="U")
         # quarter changes before the first point / at the first point / at and after the last point
         for q0, q1, q2 in product([1, 2, 3], repeat=3):
             if q0 == q1 or q1 == q2:
@@ -595,7 +621,7 @@ def gen_edge(scope):
                 for ts in ([[t0, 4, 4]], [[t0, 6, 8], [t0 + 3, 3, 4]]):
                     for m in (None, [t0, t0 + 2], [t0, t0 + 4]):
                         yield dict(t0=t0, last=last, divs=[[0, q0], [pa, q1], [pb, q2]], ts=ts, m=m,
-                                   hist=universal_history(ts))
+                                   hist=universal_history(ts), hid="U")
     # long bars: every pickup length up to a full bar and beyond, with a quarter change inside the bar
     for (b, bt), q in (((12, 8), 2), ((9, 8), 2), ((3, 2), 2), ((7, 8), 2), ((4, 4), 3), ((6, 8), 6), ((5, 8), 4)):
         bar = b * 4 * q // bt
@@ -604,17 +630,17 @@ def gen_edge(scope):
         last = bar + 3
         for divs in ([[0, q]], [[0, 2 * q], [2, q]], [[0, q], [bar - 1, 2 * q]]):
             for e in range(1, last + 1):
-                yield dict(t0=0, last=last, divs=divs, ts=[[0, b, bt]], m=[0, e], hist=universal_history([[0, b, bt]]))
+                yield dict(t0=0, last=last, divs=divs, ts=[[0, b, bt]], m=[0, e], hist=universal_history([[0, b, bt]]), hid="U")
 
 
 GENS = [("quarter-tables", gen_quarter), ("signature-tables", gen_ts), ("mixed-changes", gen_mixed),
         ("beat-mode-histories", gen_modes), ("edge-shapes", gen_edge)]
-NBLOCKS = 16
+NBLOCKS = 24
 
 BOUNDS = {
     "quarter-tables": "first point 0|2 (table from time 0 or set at the first point), length 6, <=2 interior "
                       "quarter changes at every position pair, values differ from predecessor, one signature, "
-                      "first measure none or ending at every position, universal 6-step beat-mode history",
+                      "first measure none or ending at every position, universal 4-step beat-mode history",
     "signature-tables": "first point 0|2, length 6, constant divisions, signature at the first point plus <=2 later "
                         "ones at every position (incl. the last point), first measure none/every end",
     "mixed-changes": "first point 0|2, length 5, 1 quarter change x 1 signature change at every position pair "
@@ -642,7 +668,14 @@ FULL_TXT = {
 
 
 def _key(c):
-    return repr((c["t0"], c["last"], c["divs"], c["ts"], c["m"], c["hist"]))
+    """compact identity of a case (the history is identified by its id inside the sub-space)"""
+    return repr((c["t0"], c["last"], c["divs"], c["ts"], c["m"], c["hid"]))
+
+
+def _block(key):
+    """deterministic block number of a case key (crc32: the sha1 of mc.core.block_of over the full JSON
+    costs 20 us per case, too slow for filtering 5*10^5 cases in the feeding process)"""
+    return zlib.crc32(key.encode()) % NBLOCKS
 
 
 def spaces(tier, seed):
@@ -668,10 +701,11 @@ def spaces(tier, seed):
             def block(gen=gen, blk=blk):
                 core_keys = set(_key(c) for c in gen("core"))
                 for c in gen("full"):
-                    if block_of(c, NBLOCKS) == blk and _key(c) not in core_keys:
+                    k = _key(c)
+                    if _block(k) == blk and k not in core_keys:
                         yield c
             out.append(Space(name + "/block%d" % blk, block, exhaustive=True,
-                             bounds="block %d of %d (sha1 of the case) of the thorough scope: %s" % (blk, NBLOCKS, FULL_TXT[name])))
+                             bounds="block %d of %d (crc32 of the case key) of the thorough scope: %s" % (blk, NBLOCKS, FULL_TXT[name])))
     return out
 
 
